@@ -192,7 +192,8 @@ def run_property(pid, tier, jobs, verbose=False, record_baseline=False):
     ev = {
         "property_id": pid, "tier": tier, "seed": seed, "level": info.get("level", "proof"),
         "coverage": {
-            "obligations": len(obs), "discharged": discharged,
+            "obligations": len(obs) - len(known_hits), "discharged": discharged,
+            "known_finding_obligations": len(known_hits),
             "checker_cmd": f"./check {pid} --tier {tier}",
             "trusted_base": BASE_TRUSTED + info.get("trusted_base", []) + [f"assumed interface/library contract: {i}" for i in assumed_if],
             "functions_under_contract": fn_summ,
